@@ -29,7 +29,8 @@ Next == UNCHANGED t
 \* re-shape members and helper text but never the translated type
 \* after_sibling: the tree is generated in a program whose EARLIER items use its sibling Sib(t) - the same constructors over other
 \* leaf types (and another array length): what a backend remembers from one item to the next must not reach the translation of t
-Configs == {"base", "mapped", "prefixed", "prefixed_mapped", "mapped_container", "lang_options", "after_sibling"}      \* mapped_container: "Vec<u8>" = Name (TypeScript, Go, Python)
+\* go_noptr_mapped_container: Go with no_pointer_slice AND the container-instance mapping "Vec<u8>" = Blob (two file-only options at once)
+Configs == {"base", "mapped", "prefixed", "prefixed_mapped", "mapped_container", "lang_options", "after_sibling", "go_noptr_mapped_container"}      \* mapped_container: "Vec<u8>" = Name (TypeScript, Go, Python)
 \* (Sib2(t), also used by the earlier items: t itself with every array given another LENGTH - lengths are not part of the abstract
 \* tree, so Sib2 is the identity here and a rendering choice of the harness)
 RECURSIVE Sib(_)
